@@ -16,11 +16,14 @@ Ltac Zify.zify_post_hook ::= Z.div_mod_to_equations.
 (** a constant TermArg argument of a leaf named object: an integer constant or a string *)
 Inductive targ : Type := TInt (d : decl) | TStr (b : list N).
 
+(** an element of a package: a constant or a package of such elements *)
+Inductive pel : Type := PLeaf (a : targ) | PSub (k n : N) (es : list pel).
+
 Inductive item : Type :=
 | IName (d : decl)
 | IBlk (bk : bkind) (k seg : N) (fa : list N) (body : list item)
 | ILeaf (lk : lkind) (seg : N) (fa : list N) (ta : list targ)
-| IPkg (seg k n : N) (elems : list targ).          (* Name(SEG, Package(n){ constants }) *)
+| IPkg (seg k n : N) (elems : list pel).          (* Name(SEG, Package(n){ constants and packages }) *)
 
 (** Device and Method blocks (the fragments F1 / F2) *)
 Definition IDev (k seg : N) (body : list item) : item := IBlk BDev k seg [] body.
@@ -38,6 +41,20 @@ Definition enc_targ (a : targ) : list N := match a with TInt d => enc_const d | 
 Definition targ_okb (a : targ) : bool := match a with TInt d => cst_okb d | TStr b => str_okb b end.
 Definition enc_ta (ta : list targ) : list N := flat_map enc_targ ta.
 
+Fixpoint enc_pel (e : pel) : list N :=
+  match e with
+  | PLeaf a => enc_targ a
+  | PSub k n es => [OP_PACKAGE] ++ enc_pkglen k (k + lenN ([n] ++ flat_map enc_pel es)) ++ [n] ++ flat_map enc_pel es
+  end.
+Definition enc_pels (es : list pel) : list N := flat_map enc_pel es.
+(** number of objects / of steps of the object-list loop *)
+Fixpoint pel_sz (e : pel) : nat :=
+  match e with PLeaf _ => 1%nat | PSub _ _ es => (3 + fold_right (fun x n => (pel_sz x + n)%nat) O es)%nat end.
+Definition pels_sz (es : list pel) : nat := fold_right (fun x n => (pel_sz x + n)%nat) O es.
+Fixpoint pel_cnt (e : pel) : nat :=
+  match e with PLeaf _ => 1%nat | PSub _ _ es => (2 + fold_right (fun x n => (pel_cnt x + n)%nat) O es)%nat end.
+Definition pels_cnt (es : list pel) : nat := fold_right (fun x n => (pel_cnt x + n)%nat) O es.
+
 Fixpoint enc_item (it : item) : list N :=
   match it with
   | IName d => enc_decl d
@@ -45,7 +62,7 @@ Fixpoint enc_item (it : item) : list N :=
       enc_op (bk_op bk) ++ enc_pkglen k (k + lenN (seg_bytes seg ++ enc_fx (bfx bk fa) ++ flat_map enc_item body)) ++
       seg_bytes seg ++ enc_fx (bfx bk fa) ++ flat_map enc_item body
   | ILeaf lk seg fa ta => enc_op (lk_op lk) ++ seg_bytes seg ++ enc_fx (lfx lk fa) ++ enc_ta ta
-  | IPkg seg k n elems => OP_NAME :: seg_bytes seg ++ [OP_PACKAGE] ++ enc_pkglen k (k + lenN ([n] ++ enc_ta elems)) ++ [n] ++ enc_ta elems
+  | IPkg seg k n elems => OP_NAME :: seg_bytes seg ++ [OP_PACKAGE] ++ enc_pkglen k (k + lenN ([n] ++ enc_pels elems)) ++ [n] ++ enc_pels elems
   end.
 Definition enc_items (l : list item) : list N := flat_map enc_item l.
 
@@ -54,14 +71,14 @@ Fixpoint isz (it : item) : nat :=
   match it with IName _ => 3%nat
               | IBlk bk _ _ fa body => (3 + length (bfx bk fa) + fold_right (fun x n => (isz x + n)%nat) O body)%nat
               | ILeaf lk _ fa ta => (2 + length (lfx lk fa) + length ta)%nat
-              | IPkg _ _ _ elems => (5 + length elems)%nat end.
+              | IPkg _ _ _ elems => (5 + pels_sz elems)%nat end.
 Definition iszs (l : list item) : nat := fold_right (fun x n => (isz x + n)%nat) O l.
 
 Fixpoint icnt (it : item) : nat :=
   match it with IName _ => 2%nat
               | IBlk bk _ _ fa body => (2 + length (bfx bk fa) + fold_right (fun x n => (icnt x + n)%nat) O body)%nat
               | ILeaf lk _ fa ta => (2 + length (lfx lk fa) + length ta)%nat
-              | IPkg _ _ _ elems => (5 + length elems)%nat end.
+              | IPkg _ _ _ elems => (5 + pels_cnt elems)%nat end.
 Definition icnts (l : list item) : nat := fold_right (fun x n => (icnt x + n)%nat) O l.
 
 Definition pkglen_okb (k v : N) : bool :=
@@ -78,6 +95,12 @@ Proof.
   - right; right; right. split; [reflexivity|]. change (2 ^ 28) with 268435456. exact H2.
 Qed.
 
+Fixpoint pel_okb (e : pel) : bool :=
+  match e with
+  | PLeaf a => targ_okb a
+  | PSub k n es => (n <? 256) && pkglen_okb k (k + lenN ([n] ++ flat_map enc_pel es)) && forallb pel_okb es
+  end.
+
 Fixpoint item_okb (it : item) : bool :=
   match it with
   | IName d => decl_okb d && (d_seg d <? 0x100000000)
@@ -88,7 +111,7 @@ Fixpoint item_okb (it : item) : bool :=
       lead_okb (seg_lead seg) && (seg <? 0x100000000) && Nat.eqb (length fa) (length (lk_ws lk)) && fx_okb (lfx lk fa) &&
       Nat.eqb (length ta) (lk_nt lk) && forallb targ_okb ta
   | IPkg seg k n elems =>
-      lead_okb (seg_lead seg) && (seg <? 0x100000000) && (n <? 256) && pkglen_okb k (k + lenN ([n] ++ enc_ta elems)) && forallb targ_okb elems
+      lead_okb (seg_lead seg) && (seg <? 0x100000000) && (n <? 256) && pkglen_okb k (k + lenN ([n] ++ enc_pels elems)) && forallb pel_okb elems
   end.
 
 (** ---- the trees ---- *)
@@ -128,9 +151,23 @@ Fixpoint cst_pays (off : N) (ta : list targ) : list pay :=
 Definition nlf (lk : lkind) (fa : list N) : N := N.of_nat (length (lfx lk fa)).
 (** a Package: not a named object; children = number of elements (ByteData) and a ScopeBlock with the elements *)
 Definition pkg_pay (off : N) : pay := mkPay aml_pOpPackage 11 h name_zero off 0 None.
-Definition pkg_tree (b off k n : N) (elems : list targ) : rose :=
+Fixpoint pel_tree (b off : N) (e : pel) : rose :=
+  match e with
+  | PLeaf a => RN b (targ_pay off a) []
+  | PSub k n es =>
+      RN b (pkg_pay off) [RN (b + 1) (num_pay h W1 (off + 1 + k) n) [];
+                          RN (b + 2) (sb_pay (off + 1 + k + 1))
+                             ((fix go (b off : N) (l : list pel) {struct l} : list rose :=
+                                 match l with [] => [] | x :: t => pel_tree b off x :: go (b + N.of_nat (pel_sz x)) (off + lenN (enc_pel x)) t end)
+                                (b + 3) (off + 1 + k + 1) es)]
+  end.
+Fixpoint pel_trees (b off : N) (l : list pel) : list rose :=
+  match l with [] => [] | x :: t => pel_tree b off x :: pel_trees (b + N.of_nat (pel_sz x)) (off + lenN (enc_pel x)) t end.
+Definition pkg_tree (b off k n : N) (elems : list pel) : rose := pel_tree b off (PSub k n elems).
+Lemma pel_tree_sub b off k n es : pel_tree b off (PSub k n es) =
   RN b (pkg_pay off) [RN (b + 1) (num_pay h W1 (off + 1 + k) n) [];
-                      RN (b + 2) (sb_pay (off + 1 + k + 1)) (leaf_row (b + 3) (cst_pays (off + 1 + k + 1) elems))].
+                      RN (b + 2) (sb_pay (off + 1 + k + 1)) (pel_trees (b + 3) (off + 1 + k + 1) es)].
+Proof. reflexivity. Qed.
 
 (** after the first pass: the constant is the next sibling of the Name object; names are not set *)
 Fixpoint lay1_item (b off : N) (it : item) : list rose :=
@@ -245,11 +282,34 @@ Proof. unfold lhd_pays. cbn [length]. rewrite len_fx_pays. reflexivity. Qed.
 Lemma len_cst_pays h tbl off ta : length (cst_pays h tbl off ta) = length ta.
 Proof. revert off. induction ta as [|d r IH]; intros off; cbn [cst_pays length]; [reflexivity|rewrite IH; reflexivity]. Qed.
 
-Lemma isz_pkg seg k n elems : isz (IPkg seg k n elems) = (5 + length elems)%nat.
+Lemma isz_pkg seg k n elems : isz (IPkg seg k n elems) = (5 + pels_sz elems)%nat.
 Proof. reflexivity. Qed.
 Lemma enc_pkg_item seg k n elems : enc_item (IPkg seg k n elems) =
-  OP_NAME :: seg_bytes seg ++ [OP_PACKAGE] ++ enc_pkglen k (k + lenN ([n] ++ enc_ta elems)) ++ [n] ++ enc_ta elems.
+  OP_NAME :: seg_bytes seg ++ [OP_PACKAGE] ++ enc_pkglen k (k + lenN ([n] ++ enc_pels elems)) ++ [n] ++ enc_pels elems.
 Proof. reflexivity. Qed.
+Lemma enc_pel_sub k n es : enc_pel (PSub k n es) = [OP_PACKAGE] ++ enc_pkglen k (k + lenN ([n] ++ enc_pels es)) ++ [n] ++ enc_pels es.
+Proof. reflexivity. Qed.
+Lemma pel_sz_sub k n es : pel_sz (PSub k n es) = (3 + pels_sz es)%nat. Proof. reflexivity. Qed.
+Lemma pel_cnt_sub k n es : pel_cnt (PSub k n es) = (2 + pels_cnt es)%nat. Proof. reflexivity. Qed.
+Lemma pel_okb_sub k n es : pel_okb (PSub k n es) = (n <? 256) && pkglen_okb k (k + lenN ([n] ++ enc_pels es)) && forallb pel_okb es.
+Proof. reflexivity. Qed.
+Lemma pel_sz_pos e : (1 <= pel_sz e)%nat. Proof. destruct e; [cbn; lia|rewrite pel_sz_sub; lia]. Qed.
+
+(** induction on lists of package elements *)
+Lemma pels_ind (P : list pel -> Prop) :
+  P [] -> (forall a rest, P rest -> P (PLeaf a :: rest)) -> (forall k n es rest, P es -> P rest -> P (PSub k n es :: rest)) ->
+  forall l, P l.
+Proof.
+  intros H0 HL HS.
+  assert (Hn : forall m l, (pels_sz l <= m)%nat -> P l).
+  { induction m as [|m IH]; intros l Hl.
+    - destruct l as [|x t]; [exact H0|]. cbn [pels_sz fold_right] in Hl. pose proof (pel_sz_pos x). lia.
+    - destruct l as [|x t]; [exact H0|]. cbn [pels_sz fold_right] in Hl. fold (pels_sz t) in Hl. pose proof (pel_sz_pos x).
+      destruct x as [a|k n es].
+      + apply HL. apply IH. cbn [pel_sz] in Hl. lia.
+      + rewrite pel_sz_sub in Hl. apply HS; apply IH; lia. }
+  intros l. apply (Hn (pels_sz l)). lia.
+Qed.
 
 Lemma isz_pos it : (2 <= isz it)%nat.
 Proof. destruct it; [cbn; lia|rewrite isz_blk; lia|rewrite isz_leaf; lia|rewrite isz_pkg; lia]. Qed.
